@@ -174,7 +174,7 @@ def case_st(draw):
     if xforms.can_insert(cvar) and draw(st.integers(0, 2)) == 0:
         v, m = xforms.dim_ids(cvar)
         cdt["insertions"] = draw(xforms.insertions_st(v, m, max_ins=3, allow_malformed=False,
-                                                      allow_diff=False))
+                                                      allow_diff=True))
     refs = xforms.element_refs(cvar)
     display = {}
     if draw(st.booleans()):
@@ -271,32 +271,19 @@ def judge_random(case, rec):
             rec.violation("smoothed_columns_scale_mean[%d] = %r; scale mean of the smoothed "
                           "proportions %r is %r" % (t, got[t], SP[:, t].tolist(), want),
                           sig or "scale-mean")
-    # --- the same relation on inserted subtotal columns
-    SPall = np.asarray(ref.smoothed_column_proportions, dtype=float)
+    # --- inserted subtotal columns are not periods: their scale mean is the unsmoothed one
+    # --- (for a difference column that is NaN: its column base is undefined)
+    usm = np.asarray(ref.columns_scale_mean, dtype=float)
     for pos, signed in enumerate(cB):
         if signed >= 0:
             continue
         rec.event("subtotal column on the smoothed dimension")
-        num = den = 0.0
-        nan_seen = False
-        for i, v in enumerate(values):
-            if v is None:
-                continue
-            p_ = SPall[rows_pos[i], pos]
-            if math.isnan(p_):
-                nan_seen = True
-                continue
-            num += v * p_
-            den += p_
-        want = None if (nan_seen or den == 0) else num / den
         g = np.asarray(ssm, dtype=float)[pos]
         rec.compared()
-        if not close(g, want):
-            rec.violation("smoothed_columns_scale_mean of subtotal column %d = %r; scale mean "
-                          "of its smoothed proportions %r is %r" % (
-                              pos, g, SPall[rows_pos, pos].tolist(), want),
-                          sig or "scale-mean-subtotal-column")
-
+        if not close(g, usm[pos]):
+            rec.violation("smoothed_columns_scale_mean of subtotal column %d = %r; a subtotal "
+                          "column is not smoothed and columns_scale_mean reports %r" % (
+                              pos, g, usm[pos]), sig or "scale-mean-subtotal-column")
 
 SUBCHECKS = [
     SubCheck("enumerated", None, judge_enum, kind="enumerate", enumerate_fn=_enum_cases),
